@@ -514,12 +514,25 @@ def gen_sami_styled(rng, tag):
     for cls, lang in classes:
         css += '.%s { Name: %s; lang: %s; SAMI_Type: CC; %s }\n' % (
             cls, lang, lang, rng.choice(['', 'margin-right: 3%;', 'text-align: right;']))
+    extra = []
+    if rng.random() < 0.5:
+        # a second (third) class declaring the SAME language with other positioning
+        for cls, lang in list(classes):
+            for n in range(rng.choice([1, 2])):
+                name = '%sX%d' % (cls, n)
+                css += '.%s { Name: %s alt; lang: %s; text-align: %s; margin-left: %s; margin-top: %s; }\n' % (
+                    name, lang, lang, rng.choice(['left', 'center', 'right']), rng.choice(['1%', '7%', '12px']),
+                    rng.choice(['3%', '9%']))
+                extra.append((name, lang))
     css += '#Small { font-size: 8pt; color: #00ff00; }\n.hl { font-style: italic; font-family: "A, B"; }\n'
     doc = '<SAMI>\n<HEAD>\n<STYLE TYPE="text/css">\n<!--\n%s-->\n</STYLE>\n</HEAD>\n<BODY>\n' % css
     t = 1000
     for k in range(rng.randrange(1, 6)):
         doc += '<SYNC Start=%d>' % t
         for ci, (cls, lang) in enumerate(classes):
+            alts = [c for c, l in extra if l == lang]
+            if alts and rng.random() < 0.4:
+                cls = rng.choice(alts)
             w = inline.esc(f'{tag}.{ci}.{k} ' + inline.T.word(rng, p_meta=0.3), 'sami', rng)
             r = rng.random()
             if r < 0.3:
